@@ -281,6 +281,7 @@ def run_witness(binpath, w):
             # gives (which applies the same fixes by byte offset); every range must lie inside the document
             from concurrent.futures import ThreadPoolExecutor
             progs = list(w["input"])
+            overlapping = []
 
             def one(i):
                 src_ = progs[i]
@@ -305,13 +306,14 @@ def run_witness(binpath, w):
                 resp = [v for v in _jsons(p1.stdout) if isinstance(v, dict) and v.get("id") == 1]
                 if not resp or not isinstance(resp[0].get("result"), list):
                     return None
-                edits = []
+                edits, titles = [], {}
                 for action in resp[0]["result"]:
                     if action.get("kind") != "quickfix" or "edit" not in action:
                         continue
                     for es in (action["edit"].get("changes") or {}).values():
                         for e in es:
                             edits.append((e["range"], e["newText"]))
+                            titles[json.dumps(e["range"], sort_keys=True)] = action.get("title", "")
                 if not edits:
                     return None
                 lines = src_.split("\n")
@@ -334,10 +336,16 @@ def run_witness(binpath, w):
                     a, b = to_off(rng["start"]), to_off(rng["end"])
                     if a is None or b is None or a > b:
                         return "a quick-fix range %d:%d-%d:%d is not inside the document %r" % (rng["start"]["line"], rng["start"]["character"], rng["end"]["line"], rng["end"]["character"], src_[:80])
-                    spans.append((a, b, nt))
+                    spans.append((a, b, nt, titles.get(json.dumps(rng, sort_keys=True), "")))
                 spans = sorted(set(spans), reverse=True)
-                if any(spans[k + 1][1] > spans[k][0] for k in range(len(spans) - 1)):
-                    return None          # overlapping fixes: the command line applies them in rounds, not comparable
+                for k in range(len(spans) - 1):
+                    if spans[k + 1][1] > spans[k][0]:
+                        if spans[k + 1][3] == spans[k][3]:
+                            # two edits of the same quick fix (e.g. the two halves of "unnecessary let") overlap
+                            return "two edits of the quick fix %r overlap: bytes %d..%d and %d..%d (program %r)" % (spans[k][3], spans[k + 1][0], spans[k + 1][1], spans[k][0], spans[k][1], src_[:80])
+                        overlapping.append(src_[:60])
+                        return None          # fixes of different lints overlap: the command line applies them in rounds, not comparable
+                spans = [x[:3] for x in spans]
                 res = src_
                 for a, b, nt in spans:
                     res = res[:a] + nt + res[b:]
@@ -351,7 +359,7 @@ def run_witness(binpath, w):
                 res = list(ex.map(one, range(len(progs))))
             bad_items = [r for r in res if r]
             return {"cmd": "reftest-lsp codeAction / check --fix <%d programs>" % len(progs), "exit": 0, "stdout": "", "stderr": "",
-                    "reproduced": bool(bad_items), "why": "; ".join(bad_items[:4])[:1800], "n_inputs": len(progs),
+                    "reproduced": bool(bad_items), "why": "; ".join(bad_items[:4])[:1800], "n_inputs": len(progs), "overlapping": overlapping,
                     "failing_inputs": [progs[i] for i, r in enumerate(res) if r][:6]}
         elif kind in ("wrap-dbg-corpus", "refactor-corpus"):
             # C21 bounded stand-in: wrap_in_dbg at every cursor position (every char boundary, empty selection) of each
